@@ -777,6 +777,41 @@ def complex_cases(rng, tier):
     add("linalg.svd", "complex singular values", (lambda m, a: m.linalg.svd(a, compute_uv=False)), [gz], [0], False)
     add("linalg.cholesky", "Hermitian", (lambda m, a: m.linalg.cholesky((a + m.conj(m.swapaxes(a, -1, -2))) / 2)), [herm], [0], False)
     add("linalg.pinv", "complex", (lambda m, a: m.linalg.pinv(a)), [gz], [0], False)
+    # decompositions with their vectors, through gauge-invariant functions of them (U diag(c) V^H, V diag(c) V^H), at generic
+    # complex points and at complex-dtype points that happen to be real-valued (the cotangents stay complex there)
+    cvec = onp.array([1.5, -0.5])
+    sq = distinct(rng, (2, 2)) + onp.array([[2.0, 0.0], [0.0, -1.0]])
+    tall = distinct(rng, (3, 2))
+    for ptname, P, T in (("generic complex", cm, gz.T[:, :2] if gz.T.shape[1] >= 2 else cm), ("real-valued complex", sq + 0j, tall + 0j)):
+        add("linalg.svd", "vectors, full_matrices=False, %s square" % ptname,
+            (lambda m, a: (lambda u, s_, vh: m.matmul(u * cvec, vh))(*m.linalg.svd(a, full_matrices=False))), [P], [0], False)
+        add("linalg.svd", "vectors, full_matrices=False, %s tall" % ptname,
+            (lambda m, a: (lambda u, s_, vh: m.matmul(u * cvec, vh) * (1.0 + 2.0j))(*m.linalg.svd(a, full_matrices=False))), [T], [0], False)
+        add("linalg.eigh", "vectors, %s" % ptname,
+            (lambda m, a: (lambda w, v: m.matmul(v * cvec, m.conj(m.swapaxes(v, -1, -2))) * (2.0 - 1.0j))(
+                *m.linalg.eigh((a + m.conj(m.swapaxes(a, -1, -2))) / 2))), [P], [0], False)
+        add("linalg.inv", "%s" % ptname, (lambda m, a: m.linalg.inv(a) * (1.0 + 1.0j)), [P], [0], False)
+        add("linalg.det", "%s" % ptname, (lambda m, a: m.linalg.det(a) * (1.0 + 1.0j)), [P], [0], False)
+        add("linalg.solve", "%s" % ptname, (lambda m, a, b: m.linalg.solve(a, b)), [P, cb], [0, 1], False)
+        add("linalg.pinv", "%s tall" % ptname, (lambda m, a: m.linalg.pinv(a) * (1.0 - 2.0j)), [T], [0], False)
+        add("linalg.norm", "%s nuc" % ptname, (lambda m, a: m.linalg.norm(a, "nuc")), [T], [0], False)
+    # complex arguments that are not double precision (complex64, clongdouble): small integers, so exact
+    for cdt in (onp.complex64, onp.clongdouble):
+        zs, ws = z23.astype(cdt), w23.astype(cdt)
+        dn = onp.dtype(cdt).name
+        # (real operands of the matching precision: NumPy's promotion of float64 against extended precision widens the
+        #  float64 operand's gradient, which is a question of precision mixing, not of the kinds C05 / C09 speak about)
+        rdt = onp.float64 if cdt is onp.complex64 else onp.longdouble
+        for name in ("add", "subtract", "multiply"):
+            add(name, "%s with real (3,) broadcast" % dn, (lambda m, a, b, name=name: getattr(m, name)(a, b)), [zs, iarr(rng, (3,)).astype(rdt)], [0, 1], True)
+            add(name, "%s (3,) broadcast against %s (2,3)" % (dn, dn), (lambda m, a, b, name=name: getattr(m, name)(a, b)), [zs[0], ws], [0, 1], True)
+            add(name, "%s scalar against real (2,3)" % dn, (lambda m, a, b, name=name: getattr(m, name)(a, b)), [cdt(2 - 1j), r23.astype(rdt)], [0, 1], True)
+        add("matmul", "%s (2,3)@(3,2)" % dn, (lambda m, a, b: m.matmul(a, b)), [zs, w32.astype(cdt)], [0, 1], True)
+        add("dot", "%s (3,)·(2,3)^T" % dn, (lambda m, a, b: m.dot(b, a)), [zs[0], ws], [0, 1], True)
+        add("einsum", "%s ij,j->i" % dn, (lambda m, a, b: m.einsum("ij,j->i", a, b)), [zs, ws[0]], [0, 1], True)
+        add("where", "%s branches, one broadcast" % dn, (lambda m, a, b: m.where(onp.array([True, False, True]), a, b)), [zs, ws[0]], [0, 1], True)
+        add("sum", "%s axis=0" % dn, (lambda m, a: m.sum(a, axis=0)), [zs], [0], True)
+        add("conj", "%s" % dn, (lambda m, a: m.conj(a) * (1 + 2j)), [zs], [0], True)
     add("trace", "complex", (lambda m, a: m.trace(a)), [cm], [0], False)
     add("matmul", "complex chain", (lambda m, a, b: m.matmul(m.matmul(a, b), m.conj(a))), [cm, cb], [0, 1], False)
     # real -> complex -> real composite gets a real gradient equal to the purely real one
